@@ -1,7 +1,7 @@
 (* C13 -- generated topology is independent of labelling, ordering and run history.
    Statements only; every proof is `exact <lemma>`; Print Assumptions under each. *)
 From Coq Require Import ZArith String List Bool Permutation.
-From PV Require Import Blocks Links C02_links C13_invariance.
+From PV Require Import Blocks Links C02_links C13_invariance C13_relabel.
 Import ListNotations.
 Open Scope Z_scope.
 
@@ -18,6 +18,22 @@ Theorem C13_definition_order_invariant : forall ws ws' k,
   NoDup (map fst ws) -> Permutation ws ws' -> last_write ws' k = last_write ws k.
 Proof. exact definition_order_invariant. Qed.
 Print Assumptions C13_definition_order_invariant.
+
+(* link application does not depend on how the residue graph is labelled and stored: for every
+   bijective renaming of the node keys, any storage order of nodes and edges and any edge
+   orientation (residue ids and residue contents fixed), the interaction table, the attribute
+   replacements and the added edges are the same -- matches are found by an order-independent
+   search and applied sorted by (residue id, order label), a strict total order on matches *)
+Theorem C13_links_relabel_invariant : forall f finv g g', relabelled f finv g g' ->
+  forall blocks links, Forall (fun l => NoDup (map order_str (l_res_nodes l))) links ->
+  apply_links g' blocks links = apply_links g blocks links /\
+  flat_map (link_replaces g') links = flat_map (link_replaces g) links /\
+  flat_map (link_edges g') links = flat_map (link_edges g) links.
+Proof. exact apply_links_relabel. Qed.
+Print Assumptions C13_links_relabel_invariant.
+
+Example C13_relabel_nonvacuous : relabelled ex_f ex_finv ex_g ex_g'.
+Proof. exact ex_relabelled. Qed.
 
 Example C13_nonvacuous : isort [(3, "c"); (1, "a"); (2, "b")]%string = [(1, "a"); (2, "b"); (3, "c")]%string.
 Proof. exact ex_sort. Qed.
